@@ -311,13 +311,16 @@ fn exec_bb(case: &BbCase) -> Outcome {
 	let cfg_path = bb::write_config(&dir, "acmed.toml", &cfg);
 	let mut opts = bb::daemon_opts(&acmed, &dir, &cfg_path, "run");
 	opts.umask = Some(p.umask);
+	if case.broken_output_first {
+		// (set before the daemon exists, so that the first failure cannot slip through)
+		coll.hold_when(Box::new(|r, _| bb::is_post(r)));
+	}
 	let mut daemon = match Daemon::spawn(&opts) {
 		Ok(d) => d,
 		Err(e) => return Outcome::Infra(e),
 	};
 	let end = if case.broken_output_first {
 		// every post-operation record is held; after the first one (the expected failure) the missing directory is created
-		coll.hold_when(Box::new(|r, _| bb::is_post(r)));
 		let mut reached = WaitEnd::Timeout;
 		for k in 0..(case.issuances + 3) {
 			let ok = coll.wait_until(&|r| r.iter().filter(|x| bb::is_post(x)).count() > k, Duration::from_secs(60), &mut || daemon.state() != crate::daemon::ProcState::Alive);
